@@ -263,6 +263,8 @@ inline std::pair<std::string, std::string> classifyStderr(const std::string &tex
         if (c3 != std::string::npos) where = where.substr(0, c3);
       }
       key = "ubsan:" + k2 + ":" + where;
+      // undefined behaviour located in the harness itself is a harness failure (exit 2), not a verdict on the library
+      if (fl.find("/harness/") != std::string::npos) key = "harness:" + key;
     } else if ((p = l.find("ERROR: AddressSanitizer: ")) != std::string::npos) {
       std::string kind = l.substr(p + 25);
       size_t sp = kind.find(' ');
